@@ -166,13 +166,20 @@ def delSS (ss : ShardSet) (sk : ShardKey) (preserveKeys : Bool) : Option ShardSe
 
 /-! ### The index -/
 
-/-- `EndpointIndex.shardsBySvc`. -/
-abbrev Index := Key → Option ShardSet
+/-- `EndpointIndex.shardsBySvc`. (A structure around the function, not a bare function type: compiled
+    code evaluates the body of an operation once, when the new index is built.) -/
+structure Index where
+  get : Key → Option ShardSet
 
-def Index.empty : Index := fun _ => none
+instance : CoeFun Index (fun _ => Key → Option ShardSet) := ⟨Index.get⟩
+
+theorem Index.ext {a b : Index} (h : ∀ k, a k = b k) : a = b := by
+  cases a; cases b; congr; funext k; exact h k
+
+def Index.empty : Index := ⟨fun _ => none⟩
 
 def Index.set (s : Index) (k : Key) (v : Option ShardSet) : Index :=
-  fun k' => if k' = k then v else s k'
+  ⟨fun k' => if k' = k then v else s k'⟩
 
 /-- Result of an operation: new index, returned `PushType` (updates only), number of
     `cache.Clear({ServiceEntry svc/ns})` calls per key, and whether `cache.ClearAll()` ran. -/
@@ -209,13 +216,13 @@ def updateServiceEndpoints (s : Index) (sk : ShardKey) (k : Key) (eps : List Ep)
 
 /-- `DeleteShard`: `deleteServiceInner(shardKey, svc, ns, false)` for every entry, then `ClearAll`. -/
 def deleteShard (s : Index) (sk : ShardKey) : Res :=
-  { st := fun k => (s k).bind (fun ss => delSS ss sk false),
+  { st := ⟨fun k => (s k).bind (fun ss => delSS ss sk false)⟩,
     clears := fun k => if (s k).isSome then 1 else 0,
     clearAll := true }
 
 /-- `PruneShard`: as `DeleteShard` for the entries not in `keep`, without `ClearAll`. -/
 def pruneShard (s : Index) (sk : ShardKey) (keep : List Key) : Res :=
-  { st := fun k => if k ∈ keep then s k else (s k).bind (fun ss => delSS ss sk false),
+  { st := ⟨fun k => if k ∈ keep then s k else (s k).bind (fun ss => delSS ss sk false)⟩,
     clears := fun k => if k ∈ keep then 0 else if (s k).isSome then 1 else 0 }
 
 /-- The operations of the index (the entry points used by the registries through `XDSUpdater`). -/
